@@ -91,8 +91,17 @@ def main(argv=None):
             assumptions.append('[%s] %s' % (g, s))
         # units that carry this property
         own_units = set()
+        def label_props(lb):
+            m_ = re.match(r'([C0-9+]+)\.', lb['label'] or '')
+            if m_:
+                return m_.group(1).split('+')
+            if (lb['label'] or '').startswith('*.'):
+                for u_ in mp['units']:
+                    if u_['unit'] == lb['unit']:
+                        return list(u_.get('props_internal', []))
+            return []
         for lb in mp['labels']:
-            if lb['label'] and pid in re.match(r'([C0-9+]+)\.', lb['label']).group(1).split('+'):
+            if lb['label'] and pid in label_props(lb):
                 own_units.add(lb['unit'])
         for u in mp['units']:
             if u['mode'] == 'verify' and (pid in u['props_safety'] or pid in u['props_internal']):
@@ -104,9 +113,9 @@ def main(argv=None):
                 unit_rows.append(dict(unit=u['unit'], group=g, source='%s :: %s' % (u['file'], u['item']), src_line=u['src_line'],
                                       sha256=u['sha256'], rules=['%s: %s' % (a_, b_) for a_, b_ in u['rules']], obligations=n,
                                       labels=[lb['label'] for lb in mp['labels'] if lb['unit'] == u['unit'] and lb['label']
-                                              and pid in re.match(r'([C0-9+]+)\.', lb['label']).group(1).split('+')]))
+                                              and pid in label_props(lb)]))
         for lb in mp['labels']:
-            if lb['label'] and pid in re.match(r'([C0-9+]+)\.', lb['label']).group(1).split('+') and len(samples) < 6:
+            if lb['label'] and pid in label_props(lb) and len(samples) < 6:
                 samples.append(dict(obligation=lb['label'], unit=lb['unit'], kind=lb['kind'], clause=lb['text'][:300], backend='verus/z3'))
         for c in r.get('diags', []):
             if pid in c['props']:
